@@ -38,6 +38,22 @@ META = {
 KINDS = taskfns.EXC_KINDS
 
 
+def _zdumps(obj, **kw):
+    import zlib
+
+    import cloudpickle
+
+    return zlib.compress(cloudpickle.dumps(obj))
+
+
+def _zloads(data):
+    import zlib
+
+    import cloudpickle
+
+    return cloudpickle.loads(zlib.decompress(data))
+
+
 def tier_cfg(tier):
     return {"max_nodes": 10 if tier == "quick" else 22, "site_cap": 14 if tier == "quick" else 30}
 
@@ -223,10 +239,16 @@ def run_one(tape, cfg):
                 # debugging aid of the schedulers: the failed task is re-executed in the calling
                 # thread, where it raises again (the statement still applies to what the call raises)
                 rerun = tape.chance(1, 6, "rerun_locally")
-                obs = sr.run_graph(tape, spec, request, rcfg, fail=fail,
-                                   extra_kw={"rerun_exceptions_locally": True} if rerun else None)
+                xkw = {"rerun_exceptions_locally": True} if rerun else {}
+                # the multiprocessing scheduler with a user codec whose wire format is not a bare pickle
+                codec = rcfg["entry"].startswith("mp") and tape.chance(1, 3, "codec")
+                if codec:
+                    xkw.update(func_dumps=_zdumps, func_loads=_zloads)
+                obs = sr.run_graph(tape, spec, request, rcfg, fail=fail, extra_kw=xkw or None)
             if rerun:
                 out.probe("rerun_exceptions_locally")
+            if codec:
+                out.probe("mp_custom_codec")
             out.info["executions"] = out.info.get("executions", 0) + 1
             nraise = sum(1 for e in obs.log if e[0] == "raise")
             out.faults["task_raises"] = out.faults.get("task_raises", 0) + nraise
